@@ -8,9 +8,9 @@ import glob as _glob
 import importlib.util
 from lib.core import *
 
-LEAN_TARGETS = ["Gama.Props.C11DataParser"]
+LEAN_TARGETS = ["Gama.Props.C11DataParser", "Gama.Props.C11PureData"]
 DRIVERS = ["drv_dataparser"]
-PROPS_FILES = ["Gama/Props/C11DataParser.lean"]
+PROPS_FILES = ["Gama/Props/C11DataParser.lean", "Gama/Props/C11PureData.lean"]
 
 RULE_DP = ("DataParser documents: for every parser state reached on the implementation (prefixes found by breadth-first "
            "exploration of the real parser along the generated table) a probe with every tag of the row, an unknown name, "
@@ -138,6 +138,12 @@ def run_docs(ctx, corr, exe, docs, stream, quiet=False):
                       "DataParser::init", "\n".join(M + R[-6:]))
         if expect == "accept" and O[0] != "O ok":
             corr.fail(f"DataParser refuses an archived gama-g3 input ({O[0]}) : {label}", payload, "DataParser", "\n".join(out[-4:]))
+        if isinstance(expect, tuple) and expect[0] == "refuse_between":
+            corr.count("dp_numeric_leaf_docs")
+            t = O[0].split()
+            if not (t[1] == "parser" and expect[1] <= int(t[2]) <= expect[2]):
+                corr.fail(f"a numeric element holds no number but the answer is {O[0]} instead of a refusal naming a line in "
+                          f"{expect[1]}..{expect[2]} : {label}", payload, "DataParser::pure_data", "\n".join(out[-4:]))
     return info
 
 
@@ -304,6 +310,143 @@ def split_point(rng, b):
     return len(b)
 
 
+
+# ------------------------------------------------------------------ numeric elements: DataParser::pure_data
+
+# elements of the gama-g3 input whose text is documented as ONE number (manual, "gama-g3 input data"; the XSD gives no types)
+G3_NUMERIC = ["val", "dx", "dy", "dz", "x", "y", "z", "b", "l", "h", "height", "geoid", "stdev", "variance", "from-dh", "to-dh", "left-dh",
+              "right-dh", "apriori-standard-deviation", "confidence-level", "tol-abs", "flt", "a", "inv-f", "dim", "band",
+              "cxx", "cxy", "cxz", "cyy", "cyz", "czz", "db", "dl", "dh"]
+# a number cut off at the END of the text: missing, blank, before its first digit, inside its exponent
+TRUNCATED = ["", " ", "-", "+", ".", "-.", "1e", "1e+", "1E-"]
+NOT_A_NUMBER = TRUNCATED + ["abc", "1x", "1 2", "+.e1"]
+NUM_RX = re.compile(rb"\s*[+-]?(\d+\.?\d*|\.\d+)([eE][+-]?\d+)?\s*\Z")
+LEAF_RX = re.compile(rb"<([A-Za-z][\w-]*)>([^<]*)</\1>")
+TAG_RX = re.compile(rb"<(/?)([A-Za-z][\w-]*)[^>]*?(/?)>")
+
+
+def numeric_leaf_docs(ctx, corr, rng, files):
+    """archived gama-g3 inputs with the text of ONE numeric leaf element replaced by something that is not a number
+    -> (label, bytes, -1, ("refuse_between", lo, hi)): the document must be refused and the diagnostic must name a line between
+    the line of that element and the line of the end tag of its parent (where the handler that reads the numbers runs)"""
+    out = []
+    _tests, callers = _tr.parse_pure_data(ctx.repo)
+    optional_leaves = {n[len("optional_"):].replace("_", "-") for n, k, _c in callers if k == "data" and n.startswith("optional_")}
+    ung = _tr.unguarded_extractions(ctx.repo)
+    unguarded_parents = {"point"} if ung and all(n.startswith("g3_point_") for n in ung) else set()
+    if ung and not unguarded_parents:
+        corr.inconclusive.append("DataParser: handlers extracting numbers without pure_data outside <point>: " + ", ".join(ung)[:200])
+    for f in files:
+        b = Path(f).read_bytes()
+        nm = os.path.basename(f)
+        seen = set()
+        cands = []
+        for m in LEAF_RX.finditer(b):
+            name = m.group(1).decode()
+            if name not in G3_NUMERIC or not NUM_RX.match(m.group(2)):
+                continue
+            # parent: the innermost element open at m.start(); its end tag: first point after the leaf where the depth drops
+            stack = []
+            for t in TAG_RX.finditer(b, 0, m.start()):
+                if t.group(1):
+                    if stack:
+                        stack.pop()
+                elif not t.group(3):
+                    stack.append(t.group(2).decode())
+            parent = stack[-1] if stack else "?"
+            depth, end = 0, None
+            for t in TAG_RX.finditer(b, m.end()):
+                if t.group(1):
+                    if depth == 0:
+                        end = t.start()
+                        break
+                    depth -= 1
+                elif not t.group(3):
+                    depth += 1
+            if end is None:
+                continue
+            nxt = TAG_RX.search(b, m.end())
+            last = bool(nxt and nxt.group(1))
+            key = (name, parent, last)
+            if key in seen:
+                continue
+            seen.add(key)
+            cands.append((m, name, parent, last, end))
+        for m, name, parent, last, end in cands:
+            lo = b.count(b"\n", 0, m.start()) + 1
+            hi = b.count(b"\n", 0, end) + 1
+            lits = list(NOT_A_NUMBER)
+            # scope of the oracle (each exclusion is a recorded laxness of the reader, see notes/reports/C11.md Round 4):
+            #  * the children of one element are pooled into ONE text buffer, so a MISSING token that is not the last one is filled by
+            #    the next child's number: '' / ' ' only in the last child
+            if not last:
+                lits = [v for v in lits if v.strip() != ""]
+            #  * <stdev> <variance> <from-dh> … have a character-data handler of their own (optional_*): with no text at all the
+            #    handler is never called and the element counts as absent
+            if name in optional_leaves:
+                lits = [v for v in lits if v != ""]
+            #  * handlers that never call pure_data (generated `unguardedExtractions`: the coordinates of <point>) refuse a failed
+            #    extraction but not trailing junk
+            if parent in unguarded_parents:
+                lits = [v for v in lits if v in TRUNCATED]
+            if not (last or ctx.thorough):
+                lits = rng.sample(lits, min(3, len(lits)))
+            for v in lits:
+                doc = b[:m.start(2)] + v.encode() + b[m.end(2):]
+                out.append((f"{nm}: <{name}> in <{parent}>{' (last child)' if last else ''} = {v!r}", doc, -1, ("refuse_between", lo, hi)))
+    return out
+
+
+PD_ALPHABET = b"019+-.eE x"
+
+
+def run_pure_data(ctx, corr, exe):
+    """the real `istr >> …` (libstdc++) and DataParser::pure_data vs PD.extractDouble / extractWord / pureData:
+    every string up to length 4 (thorough 5) over a 10-letter alphabet for one double, the truncated literals behind words / numbers"""
+    n = 5 if ctx.thorough else 4
+    strs = [b""]
+    layer = [b""]
+    for _ in range(n):
+        layer = [x + bytes([c]) for x in layer for c in PD_ALPHABET]
+        strs += layer
+    ops = [f"pd d {hexs(x)}" for x in strs]
+    rng = ctx.rng
+    for k in ("wd", "dd", "wwd", "ddd", "w", "dw"):
+        for v in NOT_A_NUMBER + ["1", "1.5e3", "1e999", "-0", "5.", ".5"]:
+            for pre in (b"A ", b"A B ", b"1 2 ", b" 7 \n", b""):
+                ops.append(f"pd {k} {hexs(pre + v.encode())}")
+                ops.append(f"pd {k} {hexs(pre + v.encode() + b' ')}")
+    for _ in range(ctx.size(1500, 20000)):
+        x = bytes(rng.choice(b"0123456789+-.eE \t\nxA") for _ in range(rng.randint(0, 12)))
+        ops.append(f"pd {rng.choice(['d', 'dd', 'wd', 'wwd', 'ddddd'])} {hexs(x)}")
+    chunks = [ops[i:i + 4000] for i in range(0, len(ops), 4000)]
+    impl, crashes = run_cases(exe, chunks, timeout=3600)
+    model, mcr = run_cases(ctx.driver("drv_dataparser"), chunks, timeout=3600)
+    nacc = 0
+    for i, c in enumerate(chunks):
+        if i in crashes or i in mcr:
+            cr = crashes.get(i) or mcr.get(i)
+            if _is_wall_timeout(cr):
+                _wall_inconclusive(corr, "pure_data stream")
+            else:
+                corr.fail("pure_data harness/driver crashed", {"stream": "pure-data", "label": "pure_data ops", "ops": c[:3]}, "DataParser::pure_data", cr[1][-2000:])
+            continue
+        for j, op in enumerate(c):
+            a = impl[i][j] if j < len(impl[i]) else None
+            m = model[i][j] if j < len(model[i]) else None
+            corr.case(key=("pd", op))
+            if a != m:
+                corr.disagree("pure-data", [op], [a], [m], "failbit/eofbit after the extractions or the verdict of pure_data differ")
+            if a and a.endswith(" 1"):
+                nacc += 1
+            # oracle on the implementation: a failed extraction is never "pure data"
+            if a and a.startswith("pd 1") and a.endswith(" 1"):
+                corr.fail(f"DataParser::pure_data accepts a stream whose extraction FAILED ({a}) : {op}",
+                          {"stream": "pure-data", "label": op, "ops": [op]}, "DataParser::pure_data", a)
+    corr.count("pure_data_strings", len(ops))
+    corr.count("pure_data_accepted", nacc)
+    return len(ops)
+
 # ------------------------------------------------------------------ the stream
 
 def run_stream(ctx, corr):
@@ -360,7 +503,12 @@ def run_stream(ctx, corr):
             docs.append((f"{nm}: {what}", m, -1, None))
             if rng.random() < 0.3:
                 docs.append((f"{nm}: {what} (split)", m, rng.randrange(len(m) + 1), None))
+    g3inputs = [f for f in files if not f.endswith("-adj.xml")]
+    nd = numeric_leaf_docs(ctx, corr, rng, g3inputs)
+    docs += nd
     run_docs(ctx, corr, exe, docs, "dp_events")
+    npd = run_pure_data(ctx, corr, exe)
+    ctx.log(f"DataParser numeric elements: {len(nd)} documents with a non-number in a numeric leaf, {npd} strings through pure_data")
     if len(reached) < 0.9 * max(1, len(installed)):
         corr.inconclusive.append(f"DataParser: only {len(reached)} of {len(installed)} states targeted by init() were reached by the exploration")
     if corr.stats.get("dp_outcome_ok", 0) < 10:
